@@ -4,9 +4,9 @@
    section.  The struct layout, the registered and default renderers and the slice table are regenerated
    from the source (Spec/RenderTables.v).
 
-   Result None = outside the model (stated where it arises): timestamps outside years 1970..9999, a value
-   whose Go shape does not fit the array flag of its field (reflect would panic), an unknown renderer
-   function. *)
+   Result None = outside the model (stated where it arises): timestamps outside years 1970..9999, one custom
+   field name declared both as array and as scalar and carried both ways (mapUnknown's type assertion would
+   panic), an unknown renderer function. *)
 From Coq Require Import String Ascii NArith List Bool.
 From GF Require Import Base.Res Base.Bytes Model.Msg Model.Json Model.Cfg Model.Render Spec.RenderTables.
 Import ListNotations.
@@ -220,30 +220,27 @@ Definition format_field (c : fmtc) (m : msg) (s : string) : option (option (byte
                   | None => match rf with None => true | Some _ => is_custom (cCustoms c) s end
                   end in
       if skip then Some None else
-      if is_slice (cCustoms c) field then
-        match v with
-        | None => Some (Some (bytes_of_string final, JArr []))
-        | Some (FMany l) =>
-            match render_elems fn m field l with
-            | Some js => Some (Some (bytes_of_string final, JArr js))
-            | None => None
-            end
-        | Some (FOne _) => None
-        end
-      else
-        match v with
-        | Some (FMany _) => None
-        | Some (FOne x) =>
-            match apply_renderer fn m field (Some x) with
-            | Some o => Some (match jval_of o with Some j => Some (bytes_of_string final, j) | None => None end)
-            | None => None
-            end
-        | None =>
+      (* a value that is there decides how it is walked (a list element by element, anything else as one value); the
+         array flag of the configuration only matters for a field without a value *)
+      match v with
+      | Some (FMany l) =>
+          match render_elems fn m field l with
+          | Some js => Some (Some (bytes_of_string final, JArr js))
+          | None => None
+          end
+      | Some (FOne x) =>
+          match apply_renderer fn m field (Some x) with
+          | Some o => Some (match jval_of o with Some j => Some (bytes_of_string final, j) | None => None end)
+          | None => None
+          end
+      | None =>
+          if is_slice (cCustoms c) field then Some (Some (bytes_of_string final, JArr []))
+          else
             match apply_renderer fn m field None with
             | Some o => Some (match jval_of o with Some j => Some (bytes_of_string final, j) | None => None end)
             | None => None
             end
-        end
+      end
   end.
 Local Close Scope string_scope.
 
